@@ -115,6 +115,9 @@ func loadProg(repoDir, specDir string) (*Prog, error) {
 			return nil, err
 		}
 	}
+	if err := p.buildPolicy(); err != nil {
+		return nil, err
+	}
 	return p, nil
 }
 
@@ -445,6 +448,7 @@ func (p *Prog) header(useSeq bool, specUsed, langsUsed map[string]bool, lemmas [
 		langs[l] = true
 	}
 	defs := map[string]string{}
+	var defOrder []string
 	var visit func(n string)
 	visit = func(n string) {
 		if need[n] {
@@ -469,11 +473,22 @@ func (p *Prog) header(useSeq bool, specUsed, langsUsed map[string]bool, lemmas [
 		for l := range ls {
 			langs[l] = true
 		}
+		var us2 []string
 		for u := range uses {
+			us2 = append(us2, u)
+		}
+		sort.Strings(us2)
+		for _, u := range us2 {
 			visit(u)
 		}
+		defOrder = append(defOrder, n) // dependencies first
 	}
+	var roots []string
 	for n := range specUsed {
+		roots = append(roots, n)
+	}
+	sort.Strings(roots)
+	for _, n := range roots {
 		visit(n)
 	}
 	// axioms: included when they mention a needed function or language
@@ -578,11 +593,9 @@ func (p *Prog) header(useSeq bool, specUsed, langsUsed map[string]bool, lemmas [
 	for _, l := range ln {
 		fmt.Fprintf(&b, "(declare-fun inlang_%s (BSeq) Bool)\n", l)
 	}
-	for _, n := range p.spec.FuncOrder {
-		if need[n] {
-			b.WriteString(defs[n])
-			b.WriteString("\n")
-		}
+	for _, n := range defOrder {
+		b.WriteString(defs[n])
+		b.WriteString("\n")
 	}
 	for _, a := range axioms {
 		fmt.Fprintf(&b, "(assert (! %s :named ax_%s))\n", a.text, sanitizeIdent(a.name))
@@ -626,8 +639,9 @@ const seqPrelude = `(declare-sort BSeq 0)
 (assert (forall ((b (Array Int Int)) (o Int) (l Int) (o2 Int) (l2 Int)) (! (=> (and (<= o o2) (<= 0 l2) (= (+ o2 l2) (+ o l))) (= (bs_val b o l) (bs_cat (bs_val b o (- o2 o)) (bs_val b o2 l2)))) :pattern ((bs_val b o l) (bs_val b o2 l2)))))
 `
 
-var builtinSpecOrder = []string{"iface_pack", "hexdigl", "hexdigu", "hex2lower", "hex6upper", "utf8enc", "utf8len", "utf8dec", "bs_nth"}
+var builtinSpecOrder = []string{"fields_n", "iface_pack", "hexdigl", "hexdigu", "hex2lower", "hex6upper", "utf8enc", "utf8len", "utf8dec", "bs_nth"}
 var builtinSpecs = map[string]string{
+	"fields_n":   "(declare-fun fields_n (BSeq) Int)\n(declare-fun fields_b (BSeq) (Array Int (Array Int Int)))\n(declare-fun fields_o (BSeq) (Array Int Int))\n(declare-fun fields_l (BSeq) (Array Int Int))\n(assert (forall ((s BSeq)) (! (<= 0 (fields_n s)) :pattern ((fields_n s)))))",
 	"iface_pack": "(declare-fun iface_pack (Int BSeq) BSeq)",
 	"hexdigl":    "(define-fun hexdigl ((d Int)) Int (ite (< d 10) (+ 48 d) (+ 87 d)))",
 	"hexdigu":    "(define-fun hexdigu ((d Int)) Int (ite (< d 10) (+ 48 d) (+ 55 d)))",
